@@ -422,13 +422,13 @@ Section Tbl.
       match sym_cmp a b with Ok c => c | Err _ => None end.
 
     (* Quantity::partial_cmp_preserve_nan *)
-    Inductive qordering := OIncompatible | ONan | OOk (c : comparison) | OPanic.
+    Inductive qordering := OIncompatible | ONan | OOk (c : comparison).
     Definition pcmp (a b : quantity) : qordering :=
       if n_is_nan N (q_val a) || n_is_nan N (q_val b) then ONan
       else match sym_cmp a b with
            | Err _ => OIncompatible
            | Ok (Some c) => OOk c
-           | Ok None => OPanic                  (* .expect(...) *)
+           | Ok None => ONan                    (* a conversion produced a NaN: NanOperand *)
            end.
 
     (* vm.rs Op::LessThan | GreaterThan | LessOrEqual | GreatorOrEqual *)
@@ -436,7 +436,6 @@ Section Tbl.
     Definition vm_cmp (op : cmpop) (a b : quantity) : res_t bool :=
       match pcmp a b with
       | OIncompatible => Err IncompatibleUnits
-      | OPanic => Err Panic
       | ONan => Ok false
       | OOk Lt => Ok (match op with CLt | CLe => true | _ => false end)
       | OOk Eq => Ok (match op with CLe | CGe => true | _ => false end)
